@@ -1,6 +1,6 @@
 """All contracts, keyed by the simple callee name used in the source (`cls._mul` -> '_mul')."""
-from . import kernels, linalg
-ALL = dict(kernels.REG); ALL.update(linalg.REG)
+from . import kernels, linalg, pullbacks
+ALL = dict(kernels.REG); ALL.update(linalg.REG); ALL.update(pullbacks.REG)
 def tasks_for(property_id):
     out = []
     for key, con in ALL.items():
